@@ -836,13 +836,13 @@ class SchemaGen:
                         continue
                     if r < 0.28:  # map
                         k = self.deck("mapkey", MAP_KEYS)
-                        t = value_type(allow_wkt=rng.random() < 0.5)
+                        t = value_type(allow_wkt=(rng.random() < 0.5 and not service_profile))
                         note_import(t)
                         m.fields.append(Field(fname(), nums.pop(), t, "map", map_key=k, comment=self.comment(0.15)))
                         self.hit("map.key." + k)
                         self.hit("map.value." + t.kind)
                     elif r < 0.42:
-                        t = value_type()
+                        t = value_type(allow_wkt=not service_profile)
                         note_import(t)
                         m.fields.append(Field(fname(), nums.pop(), t, "repeated", comment=self.comment(0.15)))
                         self.hit("repeated." + t.kind)
